@@ -4,6 +4,7 @@ import (
 	"encoding/json"
 	"errors"
 	"fmt"
+	"io"
 	"math"
 	"strconv"
 	"strings"
@@ -152,6 +153,37 @@ func (s *ItemSpec) Make() Made {
 		m.Item = errors.New(string(s.Str))
 	case "dur":
 		m.Item = time.Duration(s.Num)
+	case "fmtuint":
+		m.Item = FmtUint(s.Num)
+	case "fmtint16":
+		m.Item = FmtInt16(s.Num)
+	case "fmtstr":
+		m.Item = FmtStr(s.Str)
+	case "fmtbool":
+		m.Item = FmtBool(s.Num != 0)
+	case "fmtfloat":
+		m.Item = FmtFloat(s.Flt)
+	case "fmtstruct":
+		m.Item = FmtStruct{int(s.Num)}
+	case "int8":
+		m.Item = int8(s.Num)
+	case "int16":
+		m.Item = int16(s.Num)
+	case "uint16":
+		m.Item = uint16(s.Num)
+	case "uint32":
+		m.Item = uint32(s.Num)
+	case "uint64":
+		m.Item = uint64(s.Num)
+	case "uintptr":
+		m.Item = uintptr(s.Num)
+	case "complex64":
+		m.Item = complex64(complex(s.Flt, float64(s.Num)))
+	case "array":
+		m.Item = [3]int{int(s.Num), 2, 3}
+	case "ptrint":
+		v := int(s.Num)
+		m.Item = &v
 	case "nilsafe":
 		m.Item = (*NilSafe)(nil)
 	case "typed":
@@ -182,6 +214,38 @@ func (s *ItemSpec) Make() Made {
 	}
 	return m
 }
+
+// Types whose only text method is fmt.Formatter: "anything else is formatted as fmt's %v", and %v asks the operand
+// for Format before anything else.  One per scalar kind, and a struct.
+type FmtUint uint64
+
+func (f FmtUint) Format(s fmt.State, verb rune) { fmt.Fprintf(s, "%d units", uint64(f)) }
+
+type FmtInt16 int16
+
+func (f FmtInt16) Format(s fmt.State, verb rune) { fmt.Fprintf(s, "%d degrees", int16(f)) }
+
+type FmtStr string
+
+func (f FmtStr) Format(s fmt.State, verb rune) { fmt.Fprintf(s, "[redacted, %d bytes]", len(f)) }
+
+type FmtBool bool
+
+func (f FmtBool) Format(s fmt.State, verb rune) {
+	if f {
+		io.WriteString(s, "yes")
+	} else {
+		io.WriteString(s, "no")
+	}
+}
+
+type FmtFloat float64
+
+func (f FmtFloat) Format(s fmt.State, verb rune) { fmt.Fprintf(s, "%.1f%%", float64(f)) }
+
+type FmtStruct struct{ A int }
+
+func (f FmtStruct) Format(s fmt.State, verb rune) { fmt.Fprintf(s, "struct #%d", f.A) }
 
 // Text is the documented text form of the item, written from the statement
 // of C01: string is itself, rune is that character, String() else GoString()
@@ -345,7 +409,7 @@ func (r *R) AnyItem(fam Fam, maxAtoms, depth int) ItemSpec {
 		runes := []int64{0, 'a', 'Z', ' ', '\n', 0x4e16, 0x301, 0x200b, 0x1F600, 0xD800, 0xDFFF, 0x10FFFF, 0x110000, -1, -65, 0x7fffffff, -0x80000000, 0xFFFD, '"', '<', '|'}
 		return ItemSpec{K: "rune", Num: Pick(r, runes)}
 	case 2:
-		return ItemSpec{K: Pick(r, []string{"int", "int64", "uint8", "uint", "myint", "myrune"}), Num: int64(r.Range(-3, 300))}
+		return ItemSpec{K: Pick(r, []string{"int", "int64", "uint8", "uint", "myint", "myrune", "int8", "int16", "uint16", "uint32", "uint64", "uintptr", "fmtuint", "fmtint16", "fmtbool", "fmtstruct", "array"}), Num: int64(r.Range(-3, 120))}
 	case 3:
 		if r.Chance(1, 4) {
 			return ItemSpec{K: Pick(r, []string{"nan", "inf"})} // formattable, but encoding/json refuses them
@@ -357,9 +421,9 @@ func (r *R) AnyItem(fam Fam, maxAtoms, depth int) ItemSpec {
 	case 4:
 		return ItemSpec{K: "bool", Num: int64(r.Intn(2))}
 	case 5:
-		return ItemSpec{K: Pick(r, []string{"mystr", "bytes", "err"}), Str: Q(r.Str(fam, maxAtoms))}
+		return ItemSpec{K: Pick(r, []string{"mystr", "bytes", "err", "fmtstr"}), Str: Q(r.Str(fam, maxAtoms))}
 	case 6:
-		return ItemSpec{K: Pick(r, []string{"slice", "map", "struct", "structptr", "complex"}), Str: Q(r.Str(FAscii, 2)), Num: int64(r.Intn(9)), Flt: 1.5}
+		return ItemSpec{K: Pick(r, []string{"slice", "map", "struct", "structptr", "complex", "complex64", "fmtfloat"}), Str: Q(r.Str(FAscii, 2)), Num: int64(r.Intn(9)), Flt: 1.5}
 	case 7:
 		return ItemSpec{K: "dur", Num: int64(r.Intn(1 << 40))}
 	case 8:
